@@ -101,9 +101,12 @@ def r1_whole_blocks(ctx):
             for e in ys:
                 n += 1
                 t = e.data[0]
-                if t[0] == "sub" and t[1][0] == "list":
+                if t[0] == "sub" and (t[1][0] == "list" or (t[1][0] == "comp" and t[1][1] in ("list", "tuple"))):
                     # element of a list grown in the loop: every appended element must be a pre-image
-                    cands = [x[1][2] for x in t[1][1] if x[0] == "star" and x[1][0] == "comp"] + [x for x in t[1][1] if x[0] != "star"]
+                    if t[1][0] == "comp":
+                        cands = [t[1][2]]
+                    else:
+                        cands = [x[1][2] for x in t[1][1] if x[0] == "star" and x[1][0] == "comp"] + [x for x in t[1][1] if x[0] != "star"]
                     res = [preimage(ctx, c, qn) for c in cands]
                     ok = True if res and all(r[0] is True for r in res) else (False if any(r[0] is False for r in res) else None)
                     why = "; ".join(r[2] for r in res if r[2])
@@ -122,6 +125,8 @@ def r1_whole_blocks(ctx):
                         okt = True if s[2][1] == 1 else False
                     elif s[0] == "elem":
                         okt = True
+                    elif s[0] == "sub" and s[1][0] == "elem" and is_int(s[2]) and s[1][1][0] == "call" and callee(s[1][1]) == ".split":
+                        okt = True if s[2][1] == 1 else (False if s[2][1] == 0 else None)      # (train, test) pairs of a block-level split, used directly
                     ctx.check("R1", "%s|selector-is-test-part|%s" % (qn, tag), okt, "block ids are selected by the test element of the split / by a fold",
                               bad="the yielded points belong to the TRAIN blocks of the split", fn=qn, line=e.line)
         if n < (1 if cq == BSS else 4):
@@ -221,15 +226,25 @@ def r3_folds(ctx):
                         ok, why = False, "partition_by_sum is asked for %s parts instead of self.n_splits" % show(parts)
                     elif pbs and sz_ok is False:
                         ok, why = False, why or "block sizes are not counted per block id"
-                elif folds[0] == "comp":
+                elif folds[0] == "comp" or (folds[0] == "call" and callee(folds) == ".split"):
                     ok, why = False, "balance=True does not use partition_by_sum"
             else:
+                # folds = [i for _, i in KFold(...).split(ids)] looped over, or the split looped over directly (the engine records both as a
+                # loop over the split whose element is the pair's component)
+                split_call = el = None
                 if folds[0] == "comp" and folds[3][0] == "call" and callee(folds[3]) == ".split":
-                    kf = folds[3][1][1]
-                    el = folds[2]
+                    split_call, el = folds[3], folds[2]
+                    if el[0] == "sub" and el[1] == ("elem", folds[3], folds[4]):
+                        el = ("sub", "pair", el[2])
+                elif folds[0] == "call" and callee(folds) == ".split":
+                    split_call = folds
+                    used = [x for x in walk(yt) if isinstance(x, tuple) and x and x[0] == "sub" and x[1] == sel]
+                    el = ("sub", "pair", used[0][2]) if used and all(u == used[0] for u in used) else ("other",)
+                if split_call is not None:
+                    kf = split_call[1][1]
                     ns = Q.arg(ctx, kf, "n_splits") if kf[0] == "call" and callee(kf) == "sklearn.model_selection.KFold" else None
-                    on_ids = folds[3][2] and canon(folds[3][2][0]) == canon(uniq)
-                    if el[0] == "sub" and el[1] == ("elem", folds[3], folds[4]) and is_int(el[2]):
+                    on_ids = split_call[2] and canon(split_call[2][0]) == canon(uniq)
+                    if el[0] == "sub" and el[1] == "pair" and is_int(el[2]):
                         if el[2][1] == 1 and ns == Q.self_attr("n_splits") and on_ids:
                             ok = True
                         elif el[2][1] == 0:
@@ -288,9 +303,7 @@ def r4_r5_shuffle(ctx):
         if len(am) == 1 and len(ys) == 1 and ys[0][0] == "sub":
             bl, tl = am[0][2][0], ys[0][1]
 
-            def grown(t):
-                return t[1][-1][1] if t[0] == "list" and t[1] and t[1][-1][0] == "star" and t[1][-1][1][0] == "comp" else None
-            cb, ct = grown(bl), grown(tl)
+            cb, ct = Q.grown(bl), Q.grown(tl)
             ctx.check("R5", qn + "|lists-in-step", True if cb is not None and ct is not None and cb[4] == ct[4] else None, "balance and test_sets are appended once per candidate in the same loop", fn=qn)
             if cb is not None and len(nx) == 1:
                 sp = Space()
@@ -399,7 +412,7 @@ def r7_partition_guards(ctx):
                 floor_ok = False
         ctx.check("R7", qn + "|ideal-sum-is-floored", floor_ok, "the searched sums are multiples of total // parts (strictly below the total for k < parts), so no split point can equal n",
                   bad="the ideal part sum is not the floor of total / parts: (parts - 1) * ideal can reach the total, searchsorted(side='right') then returns n and np.split leaves the last fold empty", fn=qn)
-        guards = [c for c, val in p.conds if val is False]
+        guards = [c for c, _val in p.conds]          # decisions are literals: the polarity depends on how the guard is spelled
         dup = any(any(x[0] == "call" and callee(x) == "numpy.unique" and x[2] == (v,) for x in walk(g)) or any(x[0] == "call" and callee(x) == "numpy.diff" and x[2] and x[2][0] == v for x in walk(g)) for g in guards)
         zero = False
         for g in guards:
